@@ -231,6 +231,7 @@ func genSearchScenario(rng *rand.Rand, profile string, thorough bool) *SearchSce
 		}
 		selfplay := rng.IntN(3) != 0
 		noCounters := rng.IntN(3) == 0 // the whole game is played the way the UCI driver calls the search
+		outputFlip := rng.IntN(5) == 0 // the twins play the whole game without an output writer
 		for i := 0; i < n; i++ {
 			st := SearchStep{Req: Request{Limits: Limits{Nodes: -1}, StopAtPoll: -1, Output: true}}
 			switch rng.IntN(5) {
@@ -263,6 +264,13 @@ func genSearchScenario(rng *rand.Rand, profile string, thorough bool) *SearchSce
 			}
 			st.Req.Debug = rng.IntN(6) == 0
 			st.TwinDebugFlip = rng.IntN(6) == 0
+			st.TwinOutputFlip = outputFlip
+			if rng.IntN(3) == 0 {
+				st.Req.OptOrder = 1 + rng.IntN(1000)
+			}
+			if rng.IntN(3) == 0 {
+				st.TwinOptOrder = 1 + rng.IntN(1000)
+			}
 			if n < 100 && rng.IntN(24) == 0 {
 				// a search deep enough for depth-dependent heuristics, on a table small
 				// enough for signature collisions, compared with the Debug option flipped
